@@ -97,3 +97,14 @@ register('C09', 'translation_validation',
          "identified by a concrete marker run (a cell receives another cell's marker); Connectivity ring buffers are "
          "handled under C16; JAX refuses ring buffers (C20)",
          "SMT translation validation with symbolic ring-buffer contents (inductive step; symx + z3)", "7/C09")
+register('C11', 'translation_validation',
+         "The emitted function of circuits with (delay, spread) edges is executed symbolically; every state position "
+         "that carries no declared variable is proved (z3) to be a first-order stage d/dt z = k*(prev - z) with constant "
+         "k whose input prev is a model variable or another stage, which yields the chain graph; every declared state "
+         "variable's derivative is then proved equal to the reference in which an edge (d, s) delivers weight x stage "
+         "n = round((d/s)^2) of the chain of rate n/d of ITS OWN source - so order, rate, per-edge kernels, sharing of "
+         "chains and source/target bookkeeping are all decided for every state value. Unit gain and mean delay d follow "
+         "from the proved structure (n stages of rate n/d); auxiliary states start at 0 (checked on the returned state).",
+         "reals for floats; order <= 4 (quick) / 9 (thorough); <= 3 nodes, <= 4 edges; the trajectory clause follows from "
+         "vector-field equality plus C03's kernel result; Connectivity(delays, spread) under C16",
+         "SMT translation validation with solver-discovered chain structure (symx + z3)", "7/C11")
